@@ -61,6 +61,7 @@ def cfg_for(rng, k):
     c = GenCfg(msg_bits=400, max_fields=6, n_top=(3, 7), max_depth=4, p_nested=0.6)
     c.n_imports = (1, 1) if k % 3 == 0 else (0, 0)
     c.name_prefix = 0.6
+    c.digit_fields = 0.3
     c.basename_differs = 0.3
     c.extensible = k % 2 == 0
     return c
